@@ -82,7 +82,7 @@ Miss(tb, c) == c.m \in Lookups /\ c.n \notin tb[TableOf[c.m]]
 Init == tabs = Tabs0 /\ seen = {} /\ h = <<>>
 Call(c) ==
   /\ Len(h) < Depth
-  /\ h' = Append(h, [m |-> c.m, n |-> c.n, k |-> c.k, exp |-> Answer(tabs, c)])
+  /\ h' = Append(h, [m |-> c.m, n |-> c.n, k |-> c.k, t |-> c.t, exp |-> Answer(tabs, c)])
   /\ seen' = seen \cup {c.n}
   /\ tabs' = IF InsertOnMiss /\ Miss(tabs, c)
              THEN [tabs EXCEPT ![TableOf[c.m]] = @ \cup {c.n}]
@@ -93,6 +93,10 @@ Spec == Init /\ [][Next]_vars
 -----------------------------------------------------------------------------
 TypeOK == /\ \A c \in Calls : c.m \in Lookups \cup MassCalls \cup {"isEleShort", "isEleFull", "isElement"}
           /\ \A c \in Calls : c.m \in MassCalls => c.n \in Known \cup {"zero", "mid"}
+          \* tolerance c.t (a decimal string): offsets k # 0 only with the tight 0.01, where no other element is
+          \* within reach; with a LARGE tolerance (0.5, 2: neighbouring elements such as Co/Ni, Ar/Ca, K/Ar, Te/I lie
+          \* inside it) the mass is exactly the base element's, whose closest element is the base itself
+          /\ \A c \in Calls : c.t \in {"0.01", "0.5", "2"} /\ (c.t # "0.01" => (c.k = 0 /\ c.n \in Known))
           /\ \A c \in Calls : (c.m \in Lookups /\ TableOf[c.m] = "CovRad") => c.n \in Known
 NoTrace == tabs = Tabs0
 HistoryIndependent == \A c \in Calls : Answer(tabs, c) = Answer(Tabs0, c)
